@@ -198,6 +198,13 @@ func looseResolve(v avfs.VFS, abs string) []string {
 func c05History(c *rt.Ctx, fsType string, osType avfs.OSType, h int) {
 	r := c.Rand(fmt.Sprintf("c05-%s-%d-%d", fsType, osType, h))
 	v, chk := c05New(fsType, osType)
+	// MemFS enforces permissions: a third of the calls of a Linux-typed history are issued by a non-administrator, so
+	// that calls fail half-way (RemoveAll stopping at a protected directory, MkdirAll below a read-only one, ...)
+	var users []avfs.UserReader
+	if fsType == "MemFS" && osType == avfs.OsLinux && h%4 < 2 {
+		m, us := newMemWithUsers()
+		v, chk, users = m, m, us
+	}
 	tag := fsType + "/" + osType.String()
 	if v.OSType() != osType {
 		c.Disagree(tag+"|construction", fmt.Sprintf("%s created with OSType %s reports %s", fsType, osType, v.OSType()), nil)
@@ -239,9 +246,23 @@ func c05History(c *rt.Ctx, fsType string, osType avfs.OSType, h int) {
 		o = c05Conv(v, o)
 		rcwd, _ := v.Getwd()
 		allowed := c05Allowed(v, pre, o, rcwd)
+		actor := 0
+		if users != nil && r.IntN(3) == 0 {
+			actor = 1 + r.IntN(2)
+			_ = v.SetUser(users[actor])
+		}
 		res := env.Exec(o)
-		hist = append(hist, o.String()+" -> "+res.Err)
+		if actor != 0 {
+			_ = v.SetUser(users[0]) // the monitors look at the tree as the administrator
+			hist = append(hist, fmt.Sprintf("as %s: %s -> %s", users[actor].Name(), o, res.Err))
+		} else {
+			hist = append(hist, o.String()+" -> "+res.Err)
+		}
 		kind := o.K
+		who := ""
+		if actor != 0 {
+			who = "@user"
+		}
 		if fatalRes(res) {
 			c.Rep.Count("histories_ended_by_panic_or_deadlock", 1) // C07's business
 			if len(c.Rep.Notes) < 6 {
@@ -250,7 +271,7 @@ func c05History(c *rt.Ctx, fsType string, osType avfs.OSType, h int) {
 			return
 		}
 		post := fsx.Snap(v, root, opt)
-		c.Rep.Case(fmt.Sprintf("%s|%s|%s", tag, kind, res.Err), i > 0)
+		c.Rep.Case(fmt.Sprintf("%s|%s%s|%s", tag, kind, who, res.Err), i > 0)
 		// (1) public-API invariants
 		if bad := post.InvariantProblems(); len(bad) > 0 {
 			c.Disagree(fmt.Sprintf("%s|%s|%s|public-invariant:%s", tag, kind, res.Err, firstWords(bad[0])), fmt.Sprintf("%s: after %s the tree is not well formed: %v", tag, hist[len(hist)-1], bad[:min3(4, len(bad))]), replay())
@@ -302,13 +323,93 @@ func firstWords(s string) string {
 	return strings.Join(out, "-")
 }
 
+// c05Partial drives composite calls that fail half-way on permissions: a tree built by a non-administrator with hard
+// links leading out of it, some non-empty directories then protected by the administrator, then RemoveAll / MkdirAll /
+// Rename / Remove issued by the owner. The calls may fail and may leave a partial effect; the tree must stay well formed.
+func c05Partial(c *rt.Ctx, h int) {
+	r := c.Rand(fmt.Sprintf("c05-partial-%d", h))
+	v, users := newMemWithUsers()
+	root, u1 := users[0], users[1]
+	env := fsx.NewEnv(v)
+	var hist []string
+	replay := func() any { return map[string]any{"fs": "MemFS", "history": hist} }
+	do := func(u avfs.UserReader, o fsx.Op) fsx.Res {
+		_ = v.SetUser(u)
+		res := env.Exec(o)
+		_ = v.SetUser(root)
+		hist = append(hist, fmt.Sprintf("as %s: %s -> %s", u.Name(), o, res.Err))
+		return res
+	}
+	do(root, fsx.Op{K: "Mkdir", P: "/w", Perm: 0o777})
+	do(root, fsx.Op{K: "Chmod", P: "/w", Perm: 0o777})
+	do(u1, fsx.Op{K: "Mkdir", P: "/w/keep", Perm: 0o755})
+	do(u1, fsx.Op{K: "Mkdir", P: "/w/t", Perm: 0o755})
+	dirs := []string{"/w/t"}
+	var files []string
+	names := []string{"a", "b", "c", "d", "e"}
+	for i := 0; i < 4+r.IntN(10); i++ {
+		d := dirs[r.IntN(len(dirs))]
+		p := d + "/" + names[r.IntN(len(names))]
+		if r.IntN(3) == 0 && strings.Count(p, "/") < 6 {
+			if do(u1, fsx.Op{K: "Mkdir", P: p, Perm: 0o755}).Err == "ok" {
+				dirs = append(dirs, p)
+			}
+		} else if do(u1, fsx.Op{K: "WriteFile", P: p, Data: fmt.Sprintf("<%d>", i), Perm: 0o644}).Err == "ok" {
+			files = append(files, p)
+		}
+	}
+	for i, f := range files {
+		if r.IntN(2) == 0 {
+			do(u1, fsx.Op{K: "Link", P: f, Q: fmt.Sprintf("/w/keep/k%d", i)})
+		}
+	}
+	for i := 0; i < 1+r.IntN(3); i++ {
+		d := dirs[r.IntN(len(dirs))]
+		if r.IntN(2) == 0 {
+			do(root, fsx.Op{K: "Chown", P: d, N: 0, M: 0})
+		}
+		do(root, fsx.Op{K: "Chmod", P: d, Perm: []uint32{0o700, 0o555, 0o000, 0o300, 0o500, 0o755}[r.IntN(6)]})
+	}
+	for step := 0; step < 4; step++ {
+		d := dirs[r.IntN(len(dirs))]
+		var o fsx.Op
+		switch r.IntN(6) {
+		case 0, 1:
+			o = fsx.Op{K: "RemoveAll", P: d}
+		case 2:
+			o = fsx.Op{K: "RemoveAll", P: "/w/t"}
+		case 3:
+			o = fsx.Op{K: "MkdirAll", P: d + "/x/y/z", Perm: 0o755}
+		case 4:
+			o = fsx.Op{K: "Rename", P: d, Q: dirs[r.IntN(len(dirs))] + "/moved"}
+		default:
+			o = fsx.Op{K: "Remove", P: d}
+		}
+		res := do(u1, o)
+		if fatalRes(res) {
+			return // C07's business
+		}
+		c.Rep.Case(fmt.Sprintf("MemFS/partial|%s@user|%s", o.K, res.Err), true)
+		post := fsx.Snap(v, "/", fsx.SnapOpts{SymSize: true})
+		if bad := post.InvariantProblems(); len(bad) > 0 {
+			c.Disagree(fmt.Sprintf("MemFS/partial|%s|%s|public-invariant:%s", o.K, res.Err, firstWords(bad[0])), fmt.Sprintf("MemFS: after %s the tree is not well formed: %v", hist[len(hist)-1], bad[:min3(4, len(bad))]), replay())
+			return
+		}
+		if bad := v.VerifCheck(); len(bad) > 0 {
+			c.Disagree(fmt.Sprintf("MemFS/partial|%s|%s|internal-invariant:%s", o.K, res.Err, firstWords(bad[0])), fmt.Sprintf("MemFS: after %s the internal structure is inconsistent: %v", hist[len(hist)-1], bad[:min3(4, len(bad))]), replay())
+			return
+		}
+	}
+	c.Rep.Count("complete_partial_failure_scenarios", 1)
+}
+
 func init() {
 	register(&Check{
 		Prop:   "C05",
 		Shards: shards(12, 16),
 		Meta: func(tier string) rt.Meta {
 			return rt.Meta{Level: "exploration", MinEvals: 5000, MinDistinct: 100,
-				Rule:        "sequential histories of 200-300 calls from the C01 templates with aliasing bias and INVALID operands left in (root, '.', '..', empty path, source an ancestor/descendant of the destination, identical operands, multiply-linked destinations, missing parents, wrong types, unclean spellings, open handles), on MemFS and OrefaFS, Linux- and Windows-typed (-tags avfs_setostype). After EVERY call: (1) public-API checker - bounded walk terminates, listing sorted and duplicate-free, listed <=> Lstat succeeds, Nlink of every regular file == number of SameFile paths, all those paths agree on content/size/mode/owner; (2) internal checker through the verif hook (MemFS: one parent edge per directory, no cycle, stored link counter == number of entries, no entry to a deleted node; OrefaFS: path index == reachable paths, no orphan); (3) frame monitor - a failed call (RemoveAll and composites excepted) leaves the snapshot unchanged, a successful call changes only paths in a footprint computed in the pre-state (named paths, what they resolve to through links, descendants, other hard links of named files, new temp names). Signature = fs/os | call kind | outcome; non-trivial = not the first call.",
+				Rule:        "sequential histories of 200-300 calls from the C01 templates with aliasing bias and INVALID operands left in (root, '.', '..', empty path, source an ancestor/descendant of the destination, identical operands, multiply-linked destinations, missing parents, wrong types, unclean spellings, open handles), on MemFS and OrefaFS, Linux- and Windows-typed (-tags avfs_setostype); in half of the Linux-typed MemFS histories a third of the calls are issued by a non-administrator (SetUser) so that calls fail half-way on permissions, the monitors looking at the tree as the administrator. After EVERY call: (1) public-API checker - bounded walk terminates, listing sorted and duplicate-free, listed <=> Lstat succeeds, Nlink of every regular file == number of SameFile paths, all those paths agree on content/size/mode/owner; (2) internal checker through the verif hook (MemFS: one parent edge per directory, no cycle, stored link counter == number of entries, no entry to a deleted node; OrefaFS: path index == reachable paths, no orphan); (3) frame monitor - a failed call (RemoveAll and composites excepted) leaves the snapshot unchanged, a successful call changes only paths in a footprint computed in the pre-state (named paths, what they resolve to through links, descendants, other hard links of named files, new temp names). Plus partial-failure scenarios: a tree built by a non-administrator with hard links leading out of it, non-empty directories then protected by the administrator, then RemoveAll/MkdirAll/Rename/Remove by the owner - the calls may fail half-way, monitors (1) and (2) after each. Signature = fs/os | call kind | outcome; non-trivial = not the first call.",
 				Assumptions: []string{"directory link counts are not checked (the statement speaks of regular files)", "composite helpers (WriteFile, MkdirAll, OpenFile+Write+Close, temp creation) may legitimately leave a partial effect when they fail"}}
 		},
 		Run: func(c *rt.Ctx) {
@@ -325,6 +426,11 @@ func init() {
 				fsType := []string{"MemFS", "OrefaFS"}[h%2]
 				osType := []avfs.OSType{avfs.OsLinux, avfs.OsLinux, avfs.OsWindows}[(h/2)%3]
 				c05History(c, fsType, osType, h)
+			}
+			for h := 0; h < c.Pick(3000, 60000); h++ {
+				if h%c.NShards == c.Shard {
+					c05Partial(c, h)
+				}
 			}
 		},
 	})
